@@ -127,9 +127,16 @@ def run(pid, tier, seed, *, select, extra_cases, rule, assumptions, level="model
         crashed = [r for r in recs if "tb" in r]
         if crashed:
             raise core.MachineryError("driver crashed: " + crashed[0]["tb"] + json.dumps(crashed[0]["cfg"])[:400])
+        raised = [r for r in recs if r.get("codeexc")]
+        recs = [r for r in recs if not r.get("codeexc")]
         slim = [dict(C=r["C"], obs=r["obs"], draws=r["draws"], genstates=r["genstates"], decoded=r["decoded"]) for r in recs]
         rej, acc, res = tracecheck.validate("Trace_Solve", TRACE_CFG, slim, sc, "tr" + pid)
         viol = []
+        for r in raised:            # jinns.solve raised on a legal training program
+            C = r["case"]["C"]
+            viol.append(dict(clause="SolveRaised", sig=dict(vkind=C["vkind"], n=C["n"], fault=C["fault"], origin=C["origin"], exc=r["codeexc"].split(" ")[0],
+                                                            **{k: v for k, v in r["case"]["opt"].items() if k != "seed"}),
+                             detail=r["codeexc"], driver="harness.drv_solve:run_case", cfg=r["case"], record=dict(codeexc=r["codeexc"])))
         for x in rej:
             r = recs[x["tid"]]
             C = r["C"]
@@ -165,7 +172,7 @@ def run(pid, tier, seed, *, select, extra_cases, rule, assumptions, level="model
                      validation_with_own_param_generator=sum(1 for r in recs if r["case"]["opt"].get("vparam")),
                      pde_losses=sum(1 for r in recs if r["case"]["opt"].get("lkind", "ode") != "ode"))
         for k in (needs or []):
-            if not stats.get(k):
+            if not stats.get(k) and not raised:
                 raise core.MachineryError(f"vacuous: no scenario of kind '{k}' was replayed")
         tstates = sum(r.distinct for r in res)
 
